@@ -151,6 +151,13 @@ def unwrap {α : Type} : Option α → M α
   | some x => pure x
   | none => panic
 
+/-- `res.unwrap()` / `res.expect(..)` on a `Result`: an `Err` is a panic; a panic or overflow inside stays what it is
+    (b1012, round 9) -/
+def unwrapOk {α : Type} (r : M α) : M α :=
+  match r with
+  | .error (.err _) => panic
+  | r => r
+
 /-- `opt.ok_or(e)?` with the error represented by its tag -/
 def okOr {α : Type} (o : Option α) (tag : String) : M α :=
   match o with
